@@ -1,4 +1,5 @@
 SPEC = dict(
+    also=[],
     pkg="engine",
     hooks=["engine", "lib/fileops"],
     test="TestVerifC01",
